@@ -678,8 +678,61 @@ func randomData(c *core.Ctx, maxN int) gen.C13Data {
 	return gen.C13Random(r, o)
 }
 
+// laneData: long sequences whose count of one base sits exactly on 2^8 or 2^16, with one-difference
+// variants on both sides of that count (what a composition filter packed in 8 or 16 bit lanes, or a
+// length stored in a short integer, gets wrong). One or two samples, the root is the most abundant.
+func laneData(c *core.Ctx) gen.C13Data {
+	r := c.Rng
+	lane := []int{256, 65536, 65536}[r.Intn(3)]
+	base := gen.ACGT[r.Intn(4)]
+	others := strings.ReplaceAll(gen.ACGT, string(base), "")
+	root := bytes.Repeat([]byte{base}, lane)
+	for i := 0; i < lane/3+r.Intn(50); i++ {
+		root = append(root, others[r.Intn(3)])
+	}
+	r.Shuffle(len(root), func(i, j int) { root[i], root[j] = root[j], root[i] })
+	posOf := func(want bool) int { // a position holding (or not holding) the base
+		for {
+			p := r.Intn(len(root))
+			if (root[p] == base) == want {
+				return p
+			}
+		}
+	}
+	ds := gen.C13Data{Kind: "lanes", Tag: "sample", Samples: []string{"s1"}}
+	if r.Intn(2) == 0 {
+		ds.Samples = append(ds.Samples, "s2")
+	}
+	add := func(id string, seq []byte, n int) {
+		cs := map[string]int{}
+		for _, smp := range ds.Samples {
+			cs[smp] = n + r.Intn(3)
+		}
+		ds.Seqs = append(ds.Seqs, gen.C13Seq{Id: id, Seq: seq, Counts: cs})
+	}
+	add("root", root, 1000)
+	p := posOf(true)
+	add("del_base", append(append([]byte{}, root[:p]...), root[p+1:]...), 10)
+	p = posOf(true)
+	v := append([]byte{}, root...)
+	v[p] = others[r.Intn(3)]
+	add("sub_base_away", v, 20)
+	p = r.Intn(len(root) + 1)
+	add("ins_base", append(append(append([]byte{}, root[:p]...), base), root[p:]...), 30)
+	p = posOf(false)
+	v = append([]byte{}, root...)
+	v[p] = base
+	add("sub_to_base", v, 40)
+	ds.Star, ds.Depth = 4, 1
+	return ds
+}
+
 func runExact(c *core.Ctx) {
 	ds := randomData(c, c.Pick(600, 2000))
+	if c.Idx%16 == 15 {
+		ds = laneData(c)
+		c.Count("lane_boundary_data_sets", 1)
+	}
 	cf := config{1, 1.0}
 	if !selfCheckRef(c, ds) {
 		c.Inconclusive("reference self-check failed: one-edit test disagrees with the Levenshtein DP")
